@@ -139,7 +139,7 @@ def run(ctx):
             enumerated = chain.count("enumerate") == 1
             if enumerated:
                 idx_item, item = M.noref(("field", item, "0")), M.noref(("field", item, "1"))
-            ctx.ob("R20.4", "args-in-order", x_ == ("param", 1, ac.local_name(1)) and "into_iter" in chain and all(c_ in ("into_iter", "enumerate") for c_ in chain) and chain.count("enumerate") <= 1,
+            ctx.ob("R20.4", "args-in-order", x_ == ("param", 1, ac.local_name(1)) and ("into_iter" in chain or "iter" in chain) and all(c_ in ("into_iter", "enumerate", "iter", "deref", "as_slice") for c_ in chain) and chain.count("enumerate") <= 1,
                    ac.loc(nx[0][0]), "arguments are consumed with argv.into_iter() (no reordering adaptor; found %s)" % chain)
     if ok:
         a = [T.operand(x) for x in anyc[0][1]["args"]]
